@@ -1,6 +1,6 @@
 (* line protocol for the C09 index-file model.  bytes are hex ("-" = empty, "none" = no file); P1 table as in c18_driver.ml.
      F <file>                                        -> off:len,...            frames of the sequential scan (SPEC)
-     O <cur|legacy> <p1i|none> <data> <ignore 0|1> <p1table>
+     O <cur|legacy> <p1i|none> <data> <ignore 0|1> <p1table> [<max_bytes>]
                                                       -> crash | load=<outcome>;msgs=off:len,...;p1i=<hex|none>
    outcome: accept:<n entries> | rebuild:<0|1 deleted> | crash | na (index not consulted) *)
 let n_of_int (i : int) : n = if i = 0 then N0 else Npos (pos_of_int i)
@@ -27,13 +27,16 @@ let () =
     let line = input_line stdin in
     (try (match words line with
      | ["F"; f] -> print_endline (show_frames (file_frames (bytes_of_hex f)))
-     | ["O"; which; p; d; ig; t] ->
+     | "O" :: which :: p :: d :: ig :: t :: rest ->
         let loader = if which = "legacy" then load_legacy else load in
         let p1i = if p = "none" then None else Some (bytes_of_hex p) in
         let data = bytes_of_hex d in
         let ignore = (ig = "1") in
         let lo = (match p1i with Some idx when not ignore -> show_outcome (loader idx data) | _ -> "na") in
-        (match open_log (p1_of (parse_table t)) loader p1i data ignore with
+        let res = (match rest with
+                   | [mx] -> open_log_max (p1_of (parse_table t)) loader p1i data ignore (nat_of_int (int_of_string mx))
+                   | _ -> open_log (p1_of (parse_table t)) loader p1i data ignore) in
+        (match res with
          | OpenCrash -> print_endline "crash"
          | Opened o -> print_endline (Printf.sprintf "load=%s;msgs=%s;p1i=%s" lo (show_frames o.o_msgs) (opt_hex o.o_p1i)))
      | _ -> print_endline "?")
